@@ -56,3 +56,124 @@ contract(Q,
                 LoopSpec("for", var="i", inv=lambda v, old, le_: SP.fit_init_inv(v, old, le_, semi=True)),
                 LoopSpec("while", inv=lambda v, old, le_: SP.fit_outer_inv(v, old, le_, semi=True)),
                 LoopSpec("for", var="q", inv=lambda v, old, le_: SP.fit_inner_inv(v, old, le_, semi=True))])
+
+
+# ------------------------------------------------------------------ C15, last clause: empty unlabeled set == supervised
+# Relational obligation by mechanical statement alignment (DESIGN §3 C15): the body of SemiSupervisedOPF.fit, minus
+#   (r1) `current_n_nodes = self.subgraph.n_nodes`,
+#   (r2) the append loop `for i, feature in enumerate(X_unlabeled): ...`  (zero iterations when X_unlabeled is empty),
+#   (r3) stores `self.subgraph.nodes[q].label = <expr>` inside the competition loop,
+# must be statement-for-statement the body of SupervisedOPF.fit (log texts and the keyword form of `I=` aside), and the
+# removed parts must not influence what the rest computes: `current_n_nodes` is read nowhere else, and no statement at or
+# after the first removed `label` store - nor any repository function callable from there - reads a `.label` field.
+# Then both functions run the same statements on the same state up to `.label` fields nobody reads: identical cost, pred,
+# status, predicted_label, root, conquest order.  Three-valued: a shape that is not recognised gives no verdict.
+import ast as _ast
+from pyvc.contracts import STATICS
+
+
+def _strip_logs(stmts):
+    out = []
+    for s in stmts:
+        if isinstance(s, _ast.Expr) and isinstance(s.value, _ast.Constant):
+            continue
+        if isinstance(s, _ast.Expr) and isinstance(s.value, _ast.Call) and _ast.unparse(s.value.func).startswith("logger."):
+            continue
+        out.append(s)
+    return out
+
+
+class _DropLabelStores(_ast.NodeTransformer):
+    def __init__(self):
+        self.dropped = []
+
+    def visit_Assign(self, node):
+        t = node.targets[0]
+        if len(node.targets) == 1 and isinstance(t, _ast.Attribute) and t.attr == "label" \
+                and _ast.unparse(t.value).startswith("self.subgraph.nodes["):
+            self.dropped.append(node)
+            return None
+        return node
+
+
+def _norm(s):
+    txt = _ast.unparse(s)
+    return txt.replace("Subgraph(X_train, Y_train, I=I_train)", "Subgraph(X_train, Y_train, I_train)")
+
+
+def _semi_equals_supervised(repo):
+    out = []
+    sup, _, _ = repo.function("opfython.models.supervised.SupervisedOPF.fit")
+    semi, _, _ = repo.function("opfython.models.semi_supervised.SemiSupervisedOPF.fit")
+    a = _strip_logs(sup.body)
+    b = _strip_logs(semi.body)
+    # (r1) / (r2)
+    removed, rest = [], []
+    for s in b:
+        if isinstance(s, _ast.Assign) and _ast.unparse(s) == "current_n_nodes = self.subgraph.n_nodes":
+            removed.append(s)
+        elif isinstance(s, _ast.For) and _ast.unparse(s.iter) == "enumerate(X_unlabeled)" and not s.orelse:
+            removed.append(s)
+        else:
+            rest.append(s)
+    loops = [s for s in removed if isinstance(s, _ast.For)]
+    out.append(("append-loop/zero-trip-when-empty", True if len(loops) == 1 else None, loops[0].lineno if loops else 0,
+                "%d loop(s) over enumerate(X_unlabeled)" % len(loops)))
+    # the third positional parameter of Subgraph.__init__ is I
+    init = repo.classes["Subgraph"].methods.get("__init__")
+    params = [x.arg for x in init.args.args] if init is not None else []
+    out.append(("subgraph/third-parameter-is-I", True if params[:4] == ["self", "X", "Y", "I"] else None, 0, str(params[:5])))
+    # (r3)
+    import copy
+    dropper = _DropLabelStores()
+    rest2 = [dropper.visit(copy.deepcopy(s)) for s in rest]
+    rest2 = [s for s in rest2 if s is not None]
+    aligned = len(a) == len(rest2) and all(_norm(x) == _norm(y) for x, y in zip(a, rest2))
+    first_diff = next((x.lineno for x, y in zip(a, rest2) if _norm(x) != _norm(y)), 0)
+    out.append(("alignment/statement-for-statement", True if aligned else None, first_diff,
+                "supervised fit has %d statements, semi-supervised fit %d after removing %d statement(s) and %d label store(s)"
+                % (len(a), len(rest2), len(removed), len(dropper.dropped))))
+    # non-interference: current_n_nodes
+    used = [n.lineno for s in rest for n in _ast.walk(s) if isinstance(n, _ast.Name) and n.id == "current_n_nodes"]
+    out.append(("removed/current_n_nodes-not-read-elsewhere", not used, used[0] if used else 0, ""))
+    # non-interference: .label is not read at or after the first removed store
+    if dropper.dropped:
+        first = min(n.lineno for n in dropper.dropped)
+        host = next((s for s in rest if s.lineno <= first <= getattr(s, "end_lineno", s.lineno)), None)
+        tail = [s for s in rest if host is not None and s.lineno >= host.lineno]
+        dropped_lines = {n.lineno for n in dropper.dropped}
+        reads = [n.lineno for s in tail for n in _ast.walk(s)
+                 if isinstance(n, _ast.Attribute) and n.attr == "label" and isinstance(n.ctx, _ast.Load)
+                 and n.lineno not in dropped_lines]
+        out.append(("removed/label-not-read-after-first-store", not reads, reads[0] if reads else 0, ""))
+        # ... nor by a repository function callable from those statements (resolved by name, transitively)
+        names, seen = set(), set()
+        for s in tail:
+            for n in _ast.walk(s):
+                if isinstance(n, _ast.Call):
+                    f = n.func
+                    names.add(f.attr if isinstance(f, _ast.Attribute) else getattr(f, "id", ""))
+        bad = []
+        work = [x for x in names if x]
+        while work:
+            nm = work.pop()
+            if nm in seen:
+                continue
+            seen.add(nm)
+            for q in repo.functions:
+                if q.split(".")[-1] != nm or ".math.distance." in q:
+                    continue
+                fn = repo.function(q)[0]
+                for n in _ast.walk(fn):
+                    if isinstance(n, _ast.Attribute) and n.attr == "label" and isinstance(n.ctx, _ast.Load):
+                        bad.append("%s:L%d" % (q, n.lineno))
+                    if isinstance(n, _ast.Call):
+                        f = n.func
+                        work.append(f.attr if isinstance(f, _ast.Attribute) else getattr(f, "id", ""))
+        out.append(("removed/label-not-read-by-callees", not bad, 0, "; ".join(bad[:3]) or "callees by name: %s" % sorted(seen)[:12]))
+    else:
+        out.append(("removed/label-stores", None, 0, "no label store found in the competition loop"))
+    return out
+
+
+STATICS["semi_equals_supervised"] = _semi_equals_supervised
